@@ -350,7 +350,7 @@ Proof.
     + rewrite Hsroot, Hroot2. exact Hroot.
     + unfold F'. rewrite map_troot_fdel. apply retain_ne_In. split; [exact Hrootin|].
       intros Heq. rewrite Heq, N.eqb_refl in Hg1. discriminate.
-    + intros u. apply eq_true_iff_eq. rewrite Hsuid, Huids2, !mem_In.
+    + intros u. apply eq_true_iff_eq. rewrite Hsuid, Huids2, (mem_In u (fuids F')).
       unfold F'. rewrite (fuids_fdel_In r F sub u Hf Hnd Hunodup).
       rewrite tuids_unfold, in_app_iff. fold kids. unfold us1. rewrite Hirps.
       destruct (get_uid (tprops sub)) as [u0|].
